@@ -175,6 +175,12 @@ func newFlowNode(store *VStore, bu *Universe, tu *TxUniverse, delay int, startID
 }
 
 func (f *flowNode) boot(startID int64) {
+	if err := f.bootErr(startID); err != nil {
+		panic(harnessErr("load: " + err.Error()))
+	}
+}
+
+func (f *flowNode) bootErr(startID int64) error {
 	cfg := testConfig()
 	cfg.SafeTxDelay = f.cfg.delay
 	cfg.RequestMempool = false
@@ -187,7 +193,7 @@ func (f *flowNode) boot(startID int64) {
 	f.node.RegisterHandler(f.rec)
 	f.node.SubscribePushDatas(f.ctx, [][]byte{SubscribedData})
 	if err := f.node.VerifLoad(f.ctx); err != nil {
-		panic(harnessErr("load: " + err.Error()))
+		return err
 	}
 	f.node.VerifTxChannel().Open(1000)
 	f.node.VerifOutgoing().Open(1000)
@@ -195,6 +201,7 @@ func (f *flowNode) boot(startID int64) {
 	f.utracker = state.NewTxTracker()
 	f.untrust = handlers.NewUntrustedMessageHandlers(f.ctx, f.node.VerifState(), f.ustate, f.node.VerifPeers(),
 		f.node.VerifBlocks(), f.utracker, f.node.VerifMemPool(), f.node.VerifTxChannel(), f.node, "untrusted:8333")
+	return nil
 }
 
 func (f *flowNode) encState(s client.TxState) []int64 {
